@@ -68,6 +68,7 @@ type Conn struct {
 	srvCloseStep int64
 	readsDone    int
 	shortReads   int
+	splitWrites  int // writes taken in two parts
 
 	stepPtr *int64
 
@@ -144,6 +145,9 @@ func (c *Conn) Write(p []byte) (int, error) {
 			if err != nil {
 				return n, err
 			}
+			c.mu.Lock()
+			c.splitWrites++
+			c.mu.Unlock()
 			c.yield("net.write-rest")
 			m, err := c.writePart(p[half:])
 			return n + m, err
@@ -259,6 +263,16 @@ func (c *Conn) cliClose(reset bool) {
 	default:
 	}
 	raceOn()
+}
+
+//go:norace
+func (c *Conn) splitCount() int {
+	raceOff()
+	c.mu.Lock()
+	n := c.splitWrites
+	c.mu.Unlock()
+	raceOn()
+	return n
 }
 
 // cliTake removes and returns everything the server has written so far.
